@@ -339,6 +339,7 @@ func runC11(c *Ctx) {
 			paths, complete := pathsTo(test.Block(), 256)
 			st := core.Proved
 			det := ""
+			repeatFail := false
 			if !complete || len(paths) == 0 {
 				st, det = core.Undecided, "the paths to the IPOffer.IsValid() test could not be enumerated"
 			}
@@ -357,6 +358,22 @@ func runC11(c *Ctx) {
 						outstanding = true
 					}
 				}
+				if !assigned && outstanding {
+					// an outstanding offer is repeated (same transaction): the address may have been acknowledged to another
+					// client that held an offer for it too, so the repeat is preceded by a look-up of the address
+					rechecked := false
+					for _, cd := range p.Conds {
+						if strings.Contains(shortLeaseD(cd), "findByIP(recv,LEASE.IPOffer)") {
+							rechecked = true
+						}
+					}
+					if !rechecked {
+						st = core.Violated
+						repeatFail = true
+						det = "a repeated DISCOVER of the same transaction is answered with the stored IPOffer without looking the address up again: if it was acknowledged to another client in the meantime, an address that is currently acknowledged to another client is offered"
+						break
+					}
+				}
 				if !assigned && !outstanding {
 					var cs []string
 					for _, cd := range p.Conds {
@@ -370,7 +387,7 @@ func runC11(c *Ctx) {
 			// the other way to keep the invariant "a free lease has no offer": every place that frees a lease clears IPOffer
 			freeSites, cleared := 0, 0
 			var notCleared []string
-			if st == core.Violated {
+			if st == core.Violated && !repeatFail {
 				for _, fn := range c.P.LibFunctions() {
 					if fn.Pkg == nil || fn.Pkg.Pkg.Name() != "dhcp4_spoofer" {
 						continue
